@@ -192,3 +192,148 @@ func BuildFont(numGlyphs int, post, name []byte) []byte {
 	}
 	return b
 }
+
+// LayoutOpts selects freedoms of the ScriptList format that writers rarely use.
+type LayoutOpts struct {
+	ShareScript  bool // every script record points to the Script table of the first script
+	ShareLangSys bool // language systems of one script with equal content share one LangSys table
+	Reverse      bool // tables are laid out in the reverse order of their records
+}
+
+// BuildLayoutX is BuildLayout with LayoutOpts.  With ShareScript all scripts get the language
+// systems of the first one (the caller lists them once per script).
+func BuildLayoutX(scripts []ScriptSpec, numFeatures int, o LayoutOpts) []byte {
+	scripts = append([]ScriptSpec(nil), scripts...)
+	sort.SliceStable(scripts, func(i, j int) bool { return scripts[i].Script < scripts[j].Script })
+
+	lsBytes := func(l LangSpec) []byte {
+		b := put16(nil, 0)
+		b = put16(b, l.Required)
+		b = put16(b, len(l.Features))
+		for _, f := range l.Features {
+			b = put16(b, f)
+		}
+		return b
+	}
+	scriptTable := func(s ScriptSpec) []byte {
+		var def *LangSpec
+		var named []LangSpec
+		for i := range s.Langs {
+			if s.Langs[i].Lang == "" {
+				def = &s.Langs[i]
+			} else {
+				named = append(named, s.Langs[i])
+			}
+		}
+		sort.SliceStable(named, func(i, j int) bool { return named[i].Lang < named[j].Lang })
+		// the LangSys tables in record order: default first
+		var recs []LangSpec
+		if def != nil {
+			recs = append(recs, *def)
+		}
+		recs = append(recs, named...)
+		bodies := make([][]byte, len(recs))
+		owner := make([]int, len(recs)) // index of the record whose table this one uses
+		for i, r := range recs {
+			bodies[i] = lsBytes(r)
+			owner[i] = i
+			if o.ShareLangSys {
+				for j := 0; j < i; j++ {
+					if string(bodies[j]) == string(bodies[i]) {
+						owner[i] = owner[j]
+						break
+					}
+				}
+			}
+		}
+		order := []int{}
+		for i := range recs {
+			if owner[i] == i {
+				order = append(order, i)
+			}
+		}
+		if o.Reverse {
+			for a, b := 0, len(order)-1; a < b; a, b = a+1, b-1 {
+				order[a], order[b] = order[b], order[a]
+			}
+		}
+		offs := make([]int, len(recs))
+		pos := 4 + 6*len(named)
+		var body []byte
+		for _, i := range order {
+			offs[i] = pos
+			body = append(body, bodies[i]...)
+			pos += len(bodies[i])
+		}
+		head := []byte{}
+		k := 0
+		if def != nil {
+			head = put16(head, offs[owner[0]])
+			k = 1
+		} else {
+			head = put16(head, 0)
+		}
+		head = put16(head, len(named))
+		for i, l := range named {
+			head = append(head, []byte(l.Lang)...)
+			head = put16(head, offs[owner[k+i]])
+		}
+		return append(head, body...)
+	}
+
+	n := len(scripts)
+	tables := make([][]byte, n)
+	owner := make([]int, n)
+	for i, s := range scripts {
+		owner[i] = i
+		if o.ShareScript && i > 0 {
+			owner[i] = 0
+			continue
+		}
+		tables[i] = scriptTable(s)
+	}
+	order := []int{}
+	for i := range scripts {
+		if owner[i] == i {
+			order = append(order, i)
+		}
+	}
+	if o.Reverse {
+		for a, b := 0, len(order)-1; a < b; a, b = a+1, b-1 {
+			order[a], order[b] = order[b], order[a]
+		}
+	}
+	offs := make([]int, n)
+	pos := 2 + 6*n
+	var body []byte
+	for _, i := range order {
+		offs[i] = pos
+		body = append(body, tables[i]...)
+		pos += len(tables[i])
+	}
+	sl := put16(nil, n)
+	for i, s := range scripts {
+		sl = append(sl, []byte(s.Script)...)
+		sl = put16(sl, offs[owner[i]])
+	}
+	sl = append(sl, body...)
+
+	fl := put16(nil, numFeatures)
+	for i := 0; i < numFeatures; i++ {
+		fl = append(fl, 't', 'e', 's', 't')
+		fl = put16(fl, 2+6*numFeatures+4*i)
+	}
+	for i := 0; i < numFeatures; i++ {
+		fl = put16(fl, 0)
+		fl = put16(fl, 0)
+	}
+	b := put16(nil, 1)
+	b = put16(b, 0)
+	b = put16(b, 10)
+	b = put16(b, 10+len(sl))
+	b = put16(b, 10+len(sl)+len(fl))
+	b = append(b, sl...)
+	b = append(b, fl...)
+	b = put16(b, 0)
+	return b
+}
